@@ -49,3 +49,6 @@ COMPONENTS = {**COMPONENTS, "simulated": list(COMPONENTS["simulated"]) + ["descr
 
 # dimensions added in seeded round 10
 RULE = RULE + " Round 10: W4 - one raw data write transfers at most 1-1000 bytes in 5/8 of the scenarios; tuning constants also lowered where they are class attributes."
+
+# dimensions added in seeded round 11
+RULE = RULE + " Round 11: 60% of the several-kB scenarios (7% of all) use data whose every second stretch of 128 samples is zero in all channels, with block-aligned gulps, so that whole written blocks of 4-8 kB are nothing but zero bytes, also as the last blocks of a product."
